@@ -40,8 +40,16 @@ def gen_ns():
         names, "Namespaces.__validate_declaration", "validate_declaration", ["optstr", "str", "strs"],
         tables={"GLOBAL_PREFIXES": "global_prefixes"}, consts=consts, exns={"ValueError": "Rejected ValueError"}))
     # the serializer must still take its exclusion list and its tables from these names
-    out.append(py2coq.tr_fresh_name_loop(nodes, "Serializer._new_namespace_declaration", "new_namespace_declaration",
-                                         "_prefixes"))
+    # `x in self._namespaces` is Namespaces.__contains__: membership among the prefixes of the normalised mapping
+    import re as _re
+    if not _re.search(r"def __contains__\(self, item[^)]*\):\s*\n\s*return item in self\.__data\b", names):
+        raise Unsupported("Namespaces.__contains__ is no longer `item in self.__data`")
+    loop = py2coq.tr_fresh_name_loop(nodes, "Serializer._new_namespace_declaration", "new_namespace_declaration",
+                                     "_prefixes", "_namespaces")
+    if "new_namespace_declaration_name2" not in loop:
+        raise Unsupported("Serializer._new_namespace_declaration no longer consults the caller's mapping: the model and "
+                          "the proofs of C13/C02 are written for the loop that skips prefixes the caller uses")
+    out.append(loop)
     nasg = py2coq.module_assignments(nodes)
     for n in ("CTRL_CHAR_ENTITY_NAME_MAPPING", "CCE_TABLE_FOR_ATTRIBUTES", "CCE_TABLE_FOR_TEXT"):
         if n not in nasg:
